@@ -41,7 +41,9 @@ VER_VALUED = [1, 2, 3, 4, 5, 6, 7, 8, 9, 10]
 VALUES = [b"", b"a", b"b", b"peer", b"a b", b"x  y", b'q"uote', b"back\\slash", b"tab\tin", b"1.0", b"*:*|g:a",
           b"trail\\", b"nl\nx", b"\x7f", b"sp ", b" lead",
           # characters that mean something to the schema texts AROUND a type (comment, label, requirement, label reference)
-          b"issue #12", b"a#b", b"c #", b"x@y", b"$v", b"see #7 and #8"]
+          b"issue #12", b"a#b", b"c #", b"x@y", b"$v", b"see #7 and #8", b"old->new", b"1.x->2.x", b"a -> b",
+          # an escaped backslash or quote in front of a field boundary of the quoted form
+          b'a\\" b', b'C:\\" or x', b'a "b\\\\" c', b'x\\ y', b'"', b'\\"']
 
 
 def gen_history(rng, flavor, allow_assign, n):
